@@ -488,7 +488,7 @@ func main() {
 	concOps := 200000
 	ringOps := 300000
 	if res.Thorough() {
-		nseq, maxExp, concOps, ringOps = 40000, 26, 2000000, 3000000
+		nseq, maxExp, concOps, ringOps = 12000, 26, 2000000, 3000000
 	}
 	if *vlib.FlagN > 0 {
 		nseq = *vlib.FlagN
